@@ -50,6 +50,9 @@ var (
 
 const coopWatchdog = 5 * time.Second
 
+// coopYieldAfterUnlock makes the release of a hooked mutex a scheduling point too.
+var coopYieldAfterUnlock = false
+
 // coopHook is installed as common.VerifSchedHook while a schedule runs.
 func coopHook(mu *sync.Mutex, phase int) {
 	c := coopActive
@@ -60,6 +63,13 @@ func coopHook(mu *sync.Mutex, phase int) {
 	if phase == 1 {
 		if c.owner[mu] == t.id+1 {
 			delete(c.owner, mu)
+		}
+		if coopYieldAfterUnlock {
+			// also a scheduling point: whatever a thread does after releasing a
+			// lock and before it next locks (or returns) can be overtaken
+			t.waitFor = nil
+			c.yielded <- struct{}{}
+			<-t.wake
 		}
 		return
 	}
